@@ -51,6 +51,10 @@ ROUNDS = {
     'u': ['environment', 'entry_point', 'history', 'boundary'],
     'v': ['cleanup', 'state', 'size', 'history'],
     'w': ['interaction', 'encoding', 'types', 'numeric'],
+    # the same styles shifted by two, so that every property meets the two it has not had
+    'x': ['history', 'boundary', 'environment', 'entry_point'],
+    'y': ['size', 'history', 'cleanup', 'state'],
+    'z': ['types', 'numeric', 'interaction', 'encoding'],
 }
 
 TEMPLATE = open(os.path.join(HERE, 'tools', 'seed_agent_prompt.txt')).read()
